@@ -385,7 +385,10 @@ def gen_op(rng, ai, pool, ctx):
             args[-1] = {'k': 'call0', 'of': args[-1]}
         if rng.random() < 0.05:
             args[-1] = {'k': 'num', 'v': gen_value(rng, ctx['valkind'])}
-        return {'alg': ai, 'kind': 'reg', 'fn': bid, 'args': args}
+        op = {'alg': ai, 'kind': 'reg', 'fn': bid, 'args': args}
+        if rng.random() < 0.12 and not bodies.LIB[bid].get('selfref'):
+            op['mode'] = 'flip'      # through a second registration of the same function, other `symbolic` value
+        return op
     if kind == 'register':
         return {'alg': ai, 'kind': 'register', 'fn': rng.choice(regs)}
     if kind == 'symcall':
